@@ -17,27 +17,33 @@ import (
 // packages all of whose functions the library may call: they panic only on arguments the
 // rules bound elsewhere (negative counts and lengths: R-BOUNDS) or on resource exhaustion
 var extPkgReviewed = map[string]string{
-	"bytes":        "pure functions over byte slices and Buffer; Buffer panics only on exhaustion (ErrTooLarge)",
-	"strings":      "pure functions over strings; Repeat with a negative count is covered by R-BOUNDS' make/count obligations",
-	"strconv":      "conversions report errors through their result",
-	"errors":       "New/Is/As/Unwrap",
-	"fmt":          "formatting recovers from panics in Error/String methods",
-	"unicode":      "table lookups",
-	"unicode/utf8": "total functions over bytes",
-	"sort":         "sorting with the library's own comparison functions",
-	"io":           "interfaces only",
-	"sync":         "Pool / Map / WaitGroup used as documented",
-	"sync/atomic":  "total",
-	"os":           "command only",
-	"flag":         "command only",
-	"log":          "command only",
-	"io/ioutil":    "command only",
+	"bytes":         "pure functions over byte slices and Buffer; Buffer panics only on exhaustion (ErrTooLarge)",
+	"strings":       "pure functions over strings; Repeat with a negative count is covered by R-BOUNDS' make/count obligations",
+	"strconv":       "conversions report errors through their result",
+	"errors":        "New/Is/As/Unwrap",
+	"fmt":           "formatting recovers from panics in Error/String methods",
+	"unicode":       "table lookups",
+	"unicode/utf8":  "total functions over bytes",
+	"sort":          "sorting with the library's own comparison functions",
+	"io":            "interfaces only",
+	"sync":          "Pool / Map / WaitGroup used as documented",
+	"sync/atomic":   "total",
+	"math":          "total functions over numbers",
+	"math/bits":     "total",
+	"unicode/utf16": "total",
+	"cmp":           "total",
+	"os":            "command only",
+	"flag":          "command only",
+	"log":           "command only",
+	"io/ioutil":     "command only",
 }
 
 // reviewed function by function
 var extFnReviewed = map[string]string{
-	"reflect.TypeOf":                            "total (nil interface gives a nil Type, compared with !=)",
-	"reflect.DeepEqual":                         "total",
+	"reflect.TypeOf":    "total (nil interface gives a nil Type, compared with !=)",
+	"reflect.DeepEqual": "total",
+	"slices.Contains":   "reads only", "slices.Index": "reads only", "slices.Equal": "reads only", "slices.Clone": "copies", "slices.IndexFunc": "reads only", "slices.ContainsFunc": "reads only",
+	"maps.Clone": "copies", "maps.Keys": "reads only",
 	"encoding/json.Unmarshal":                   "returns an error for ill-formed text (legacy body; C18/C19 trust the standard decoder)",
 	"encoding/json.Marshal":                     "returns an error",
 	"encoding/json.MarshalIndent":               "returns an error",
